@@ -21,6 +21,7 @@ PROPS = {
     "C10": ("p_pos", "check_c10"),
     "C11": ("p_server", "check_c11"),
     "C12": ("p_server", "check_c12"),
+    "C13": ("p_types", "check_c13"),
     "C14": ("p_lexer", "check_c14"),
     "C15": ("p_preproc", "check_c15"),
     "C16": ("p_workspace", "check_c16"),
